@@ -8,6 +8,7 @@ package plugins
 // the in-memory pod; none of them holds a handle on the pods/binding sub-resource, so they leave the
 // ghost "bound" state of package binding alone (it is not in their frames).
 
+//@ ghost pluginRollbacks() int
 // ASSUMED contract of a registered plugin (vendored kube-scheduler plugins behind bindPluginWrapper included).
 //@ func Plugin.PreBind
 //@   props C11
@@ -21,7 +22,8 @@ package plugins
 //@ end
 //@ func Plugin.Rollback
 //@   props C11
-//@   modifies fields(pod)
+//@   modifies fields(pod), pluginRollbacks()
+//@   ensures pluginRollbacks() == old(pluginRollbacks()) + 1
 //@   ensures pod.Name == old(pod.Name) && pod.Namespace == old(pod.Namespace) && pod.UID == old(pod.UID)
 //@ end
 //@ func Plugin.Name
@@ -31,8 +33,6 @@ package plugins
 
 //@ func (*BinderPlugins).PreBind
 //@   props C11
-//@   trusted
-//@   note TEMPORARY (engine limitation reported to main, still present after batch 5 for INTERFACE-method callees): the loop-head havoc for the callee-contract write `fields(pod)` of Plugin.PreBind is whole-family, so the 118 frame obligations cannot be proved; body = one loop over the registered plugins calling Plugin.PreBind (assumed contract above)
 //@   requires bp != nil && pod != nil
 //@   requires forall i int :: 0 <= i && i < len(bp.plugins) ==> bp.plugins[i] != nil
 //@   modifies fields(pod)
@@ -45,8 +45,6 @@ package plugins
 
 //@ func (*BinderPlugins).PostBind
 //@   props C11
-//@   trusted
-//@   note TEMPORARY (engine limitation reported to main, still present after batch 5 for INTERFACE-method callees): the loop-head havoc for the callee-contract write `fields(pod)` of Plugin.PostBind is whole-family, so the 118 frame obligations cannot be proved; body = one loop over the registered plugins calling Plugin.PostBind (assumed contract above)
 //@   requires bp != nil && pod != nil
 //@   requires forall i int :: 0 <= i && i < len(bp.plugins) ==> bp.plugins[i] != nil
 //@   modifies fields(pod)
@@ -57,14 +55,18 @@ package plugins
 //@   ensures pod.Name == old(pod.Name) && pod.Namespace == old(pod.Namespace) && pod.UID == old(pod.UID)
 //@ end
 
-// pluginRollbacks(): number of BinderPlugins.Rollback rounds
-//@ ghost pluginRollbacks() int
+// pluginRollbacks(): number of Plugin.Rollback calls made so far
+// every registered plugin is rolled back, also when an earlier plugin's rollback failed
 //@ func (*BinderPlugins).Rollback
 //@   props C11
-//@   trusted
-//@   note TEMPORARY (same engine limitation as PreBind): loop over the registered plugins calling Plugin.Rollback, errors joined with errors.Join
 //@   requires bp != nil && pod != nil
+//@   requires forall i int :: 0 <= i && i < len(bp.plugins) ==> bp.plugins[i] != nil
 //@   modifies fields(pod), pluginRollbacks()
-//@   ensures pluginRollbacks() == old(pluginRollbacks()) + 1
+//@   loop 1
+//@     invariant 0 - 1 <= rangeindex && rangeindex < len(bp.plugins)
+//@     invariant pluginRollbacks() == old(pluginRollbacks()) + rangeindex + 1
+//@     invariant pod.Name == old(pod.Name) && pod.Namespace == old(pod.Namespace) && pod.UID == old(pod.UID)
+//@     decreases len(bp.plugins) - rangeindex
+//@   ensures [every-plugin-rolled-back] pluginRollbacks() == old(pluginRollbacks()) + len(bp.plugins)
 //@   ensures pod.Name == old(pod.Name) && pod.Namespace == old(pod.Namespace) && pod.UID == old(pod.UID)
 //@ end
